@@ -262,14 +262,14 @@ func runC02(r *R) {
 				return n == "(net/http.ResponseWriter).Write" || n == "(net/http.Header).Set" || n == "(net/http.ResponseWriter).WriteHeader"
 			}) {
 				g, _ := Guard(fn, pb, c.(ssa.Instruction), guard)
-				dom := pb.Block().Dominates(c.Block())
+				dom := Precedes(pb, c)
 				r.Check(g && dom, "C02-R6", fn, "ack "+bareName(CalleeName(c.Common())), c.Pos(), "guarded by PutBlock err==nil", "acknowledgement reachable when PutBlock failed or was not called")
 			}
 			// data given to PutBlock was fully read: io.ReadFull err==nil
 			if rf := r.onlyCall("C02-R6", fn, "io.ReadFull"); rf != nil {
 				g, _ := Guard(fn, rf, pb.(ssa.Instruction), ErrNilC(rf))
 				bufOK := same(rf.Common().Args[1], pb.Common().Args[2])
-				r.Check(g && bufOK && rf.Block().Dominates(pb.Block()), "C02-R6", fn, "io.ReadFull → PutBlock", rf.Pos(), "PutBlock gets the buffer only after ReadFull succeeded", "PutBlock can be reached with a partially read body")
+				r.Check(g && bufOK && Precedes(rf, pb), "C02-R6", fn, "io.ReadFull → PutBlock", rf.Pos(), "PutBlock gets the buffer only after ReadFull succeeded", "PutBlock can be reached with a partially read body")
 			}
 		}
 	}
@@ -293,7 +293,7 @@ func runC02(r *R) {
 					var put ssa.CallInstruction
 					for _, c := range CallsMatching(fn, func(nm string, c *ssa.CallCommon) bool { return w.IsMethodOfIface(c, ks+".Volume", "Put") }) {
 						if putMount(c) != nil && same(putMount(c), rootBase(base)) {
-							if c.Block().Dominates(ret.Block()) {
+							if Precedes(c, ret) {
 								put = c
 							}
 						}
@@ -355,6 +355,23 @@ func ErrUsed(c ssa.CallInstruction) bool {
 func nonNilGuarded(fn *ssa.Function, ret *ssa.Return) bool {
 	if len(ret.Results) == 0 {
 		return false
+	}
+	// a merged result (`err` of an inlined helper, or assigned in several arms): the return is non-nil guarded when
+	// no arrival that brings a possibly-nil value can reach it (the `if err != nil` that follows the merge is
+	// evaluated per arrival edge by the walker)
+	if phi, isPhi := returnDirect(ret, ret.Results[len(ret.Results)-1]).(*ssa.Phi); isPhi {
+		okAll := true
+		for k, e := range phi.Edges {
+			if definitelyNonNilErr(e) {
+				continue
+			}
+			if ReachSel(fn, ret, EdgeSet{}, phi.Block(), k) {
+				okAll = false
+			}
+		}
+		if okAll {
+			return true
+		}
 	}
 	ops := returnOperand(ret, ret.Results[len(ret.Results)-1])
 	for _, v := range ops {
